@@ -45,7 +45,8 @@ EXTENDS Mpmc, Integers, TLC
 CONSTANTS Procs,         \* process ids (a set of integers)
           Prog,          \* [Procs -> Seq(operation)]   operation = [op, m, set] as in Mpmc.tla, plus op = "recvc"
           Fixed,         \* FALSE = the code as it is; TRUE = flag accessed under the queue lock (proposed patch)
-          EnableFirst    \* TRUE = the code as it is; FALSE = mutant without `future.as_mut().enable()`
+          EnableFirst,   \* TRUE = the code as it is; FALSE = mutant without `future.as_mut().enable()`
+          Mon            \* TRUE = keep the linearisability monitors; FALSE = larger programs, the other obligations only
 
 VARIABLES q, closed,                     \* the channel
           nstate, ncalls, waiters,       \* tokio Notify
@@ -81,8 +82,9 @@ Monitors(calls, rets) ==        \* calls: set of processes called in this step; 
   LET f(L, weak) ==
         LET a == IF calls = {} THEN L ELSE MCall(L, CHOOSE p \in calls : TRUE, weak)
         IN IF rets = {} THEN a ELSE LET pr == CHOOSE x \in rets : TRUE IN MRet(a, pr[1], pr[2])
-  IN /\ Ls' = f(Ls, FALSE)
-     /\ Lw' = f(Lw, TRUE)
+  IN IF Mon THEN /\ Ls' = f(Ls, FALSE)
+                 /\ Lw' = f(Lw, TRUE)
+            ELSE UNCHANGED <<Ls, Lw>>
 
 (* ---------------------------------------------------------------- tokio Notify ---- *)
 \* notify_one / the hand-on in drop_notified: returns [ns, ws, note] = new nstate, waiters, fnote
